@@ -8,21 +8,21 @@ See Also:
 
 from __future__ import annotations
 
+import binascii
+
 __all__ = ['modutf7_encode', 'modutf7_decode']
 
 
 def _modified_b64encode(src: str) -> bytes:
-    # Inspired by Twisted Python's implementation:
-    #   https://twistedmatrix.com/trac/browser/trunk/LICENSE
-    src_utf7 = src.encode('utf-7')
-    return src_utf7[1:-1].replace(b'/', b',')
+    src_utf16 = src.encode('utf-16-be', 'surrogatepass')
+    src_b64 = binascii.b2a_base64(src_utf16, newline=False)
+    return src_b64.rstrip(b'=').replace(b'/', b',')
 
 
 def _modified_b64decode(src: bytes) -> str:
-    # Inspired by Twisted Python's implementation:
-    #   https://twistedmatrix.com/trac/browser/trunk/LICENSE
-    src_utf7 = b'+%b-' % src.replace(b',', b'/')
-    return src_utf7.decode('utf-7')
+    src_b64 = src.replace(b',', b'/') + b'=' * (-len(src) % 4)
+    src_utf16 = binascii.a2b_base64(src_b64)
+    return src_utf16.decode('utf-16-be', 'surrogatepass')
 
 
 def modutf7_encode(data: str) -> bytes:
@@ -33,31 +33,24 @@ def modutf7_encode(data: str) -> bytes:
 
     """
     ret = bytearray()
-    is_usascii = True
-    encode_start = None
-    for i, symbol in enumerate(data):
+    to_encode: list[str] = []
+    for symbol in data:
         charpoint = ord(symbol)
-        if is_usascii:
+        if 0x20 <= charpoint <= 0x7e:
+            if to_encode:
+                ret.append(0x26)
+                ret.extend(_modified_b64encode(''.join(to_encode)))
+                ret.append(0x2d)
+                to_encode.clear()
             if charpoint == 0x26:
                 ret.extend(b'&-')
-            elif 0x20 <= charpoint <= 0x7e:
-                ret.append(charpoint)
             else:
-                encode_start = i
-                is_usascii = False
+                ret.append(charpoint)
         else:
-            if 0x20 <= charpoint <= 0x7e:
-                to_encode = data[encode_start:i]
-                encoded = _modified_b64encode(to_encode)
-                ret.append(0x26)
-                ret.extend(encoded)
-                ret.extend((0x2d, charpoint))
-                is_usascii = True
-    if not is_usascii:
-        to_encode = data[encode_start:]
-        encoded = _modified_b64encode(to_encode)
+            to_encode.append(symbol)
+    if to_encode:
         ret.append(0x26)
-        ret.extend(encoded)
+        ret.extend(_modified_b64encode(''.join(to_encode)))
         ret.append(0x2d)
     return bytes(ret)
 
@@ -68,33 +61,25 @@ def modutf7_decode(data: bytes) -> str:
     Args:
         data: The encoded bytestring to decode.
 
+    Raises:
+        ValueError: The bytestring contains an invalid encoded sequence.
+
     """
-    parts = []
-    is_usascii = True
-    buf = memoryview(data)
-    while buf:
-        byte = buf[0]
-        if is_usascii:
-            if buf[0:2] == b'&-':
-                parts.append('&')
-                buf = buf[2:]
-            elif byte == 0x26:
-                is_usascii = False
-                buf = buf[1:]
-            else:
-                parts.append(chr(byte))
-                buf = buf[1:]
+    parts: list[str] = []
+    pos = 0
+    end = len(data)
+    while pos < end:
+        byte = data[pos]
+        if byte != 0x26:
+            parts.append(chr(byte))
+            pos += 1
+            continue
+        shift_end = data.find(b'-', pos)
+        if shift_end < 0:
+            shift_end = end
+        if shift_end == pos + 1:
+            parts.append('&')
         else:
-            for i, byte in enumerate(buf):
-                if byte == 0x2d:
-                    to_decode = buf[:i].tobytes()
-                    decoded = _modified_b64decode(to_decode)
-                    parts.append(decoded)
-                    buf = buf[i + 1:]
-                    is_usascii = True
-                    break
-    if not is_usascii:
-        to_decode = buf.tobytes()
-        decoded = _modified_b64decode(to_decode)
-        parts.append(decoded)
+            parts.append(_modified_b64decode(data[pos + 1:shift_end]))
+        pos = shift_end + 1
     return ''.join(parts)
